@@ -15,7 +15,7 @@ import (
 )
 
 type Op struct {
-	Op    string          `json:"op"` // U update, SA sendall, W wait for the updater's own save, S save (mode direct)
+	Op    string          `json:"op"` // U update, SA sendall, W wait for the updater's own save, S save (mode direct), R restart a second dastard on the directory
 	Tag   string          `json:"tag,omitempty"`
 	Typed bool            `json:"typed,omitempty"`
 	Val   json.RawMessage `json:"val,omitempty"`
@@ -44,6 +44,7 @@ func runCase(c Case) lib.Result {
 	var tags map[string]bool
 	for attempt := 0; ; attempt++ {
 		tags = map[string]bool{"mode-" + c.Mode: true}
+		vals = newInterner()
 		os.RemoveAll(scratch)
 		if err := os.MkdirAll(scratch, 0o775); err != nil {
 			panic(err)
@@ -59,7 +60,7 @@ func runCase(c Case) lib.Result {
 	}
 	classify(c, tags)
 	res.Term = term
-	res.Impl = impl
+	res.Impl = map[string]interface{}{"observed": impl, "values": vals.table()}
 	res.NonTrivial = nt || tags["sendall-after-repeat"]
 	for t := range tags {
 		res.Tags = append(res.Tags, t)
@@ -109,6 +110,8 @@ func classify(c Case, tags map[string]bool) {
 			tags["wait-for-save"] = true
 		case "S":
 			tags["direct-save"] = true
+		case "R":
+			tags["restart-op"] = true
 		}
 	}
 	if c.Dir.Init == nil {
